@@ -233,15 +233,59 @@ func c05IcbCheck(res *vh.Result, cfg *icCfg) func(r *icRun, x *vrt.Sched, cost i
 			viol("deadlock", strings.Join(r.stuck, ","), "clients never finished "+x.Err)
 			return
 		}
-		stored := map[[2]int]*icCall{}
-		deleted := map[int]bool{}
-		for _, c := range r.calls {
-			if c.Op.Kind == "set" && c.OK {
-				stored[[2]int{c.Op.K, c.V}] = c
+		// incarnations: the entry objects resident after the pre-history (their final value is whatever the
+		// object holds now: nobody writes an entry after it left the map, entry pool off) plus every later
+		// successful Set that did not update one of them in place
+		type inc struct {
+			k, v     int
+			ttl      bool
+			resident bool
+		}
+		var incs []*inc
+		superseded := map[[2]int]bool{} // values an in-place update overwrote: must never be reported
+		inPlace := map[int]bool{}       // values written in place into a pre-history entry
+		vrt.Quiet(func() {
+			for k, p := range r.pre {
+				i := &inc{k: k, v: p.value, ttl: p.expire.Load() != 0}
+				_, idx := r.h.s.index(k)
+				i.resident = r.h.s.shards[idx].hashmap[k] == p
+				incs = append(incs, i)
+				inPlace[p.value] = true
 			}
+		})
+		deleted := map[int]bool{}
+		ttlOf := map[int]bool{}
+		for _, c := range r.calls {
 			if c.Op.Kind == "del" {
 				deleted[c.Op.K] = true
 			}
+			if c.Op.Kind != "set" || !c.OK {
+				continue
+			}
+			ttlOf[c.V] = c.Op.TTL != 0
+			if p := r.pre[c.Op.K]; p != nil && c.Client == -1 {
+				if p.value != c.V {
+					superseded[[2]int{c.Op.K, c.V}] = true // the pre-history value was overwritten in place later
+				}
+				continue
+			}
+			if inPlace[c.V] {
+				continue // this Set updated a pre-history entry in place
+			}
+			if p := r.pre[c.Op.K]; p != nil && !cfg.O.Pool {
+				// a Set on a pre-history key that is not the object's final value: either it created a new
+				// incarnation (the old one had left) or it was overwritten in place by a later update
+				_ = p
+			}
+			i := &inc{k: c.Op.K, v: c.V, ttl: c.Op.TTL != 0}
+			if v, ok := r.final[c.Op.K]; ok && v == c.V {
+				i.resident = true
+			}
+			incs = append(incs, i)
+		}
+		stored := map[[2]int]*inc{}
+		for _, i := range incs {
+			stored[[2]int{i.k, i.v}] = i
 		}
 		seen := map[[2]int]int{}
 		for _, n := range r.h.notes {
@@ -250,12 +294,16 @@ func c05IcbCheck(res *vh.Result, cfg *icCfg) func(r *icRun, x *vrt.Sched, cost i
 			if seen[kv] == 2 {
 				viol("duplicate-notification", fmt.Sprintf("reason=%d", n.R), fmt.Sprintf("(%d,%d) reported twice", n.K, n.V))
 			}
-			c := stored[kv]
-			if c == nil {
+			if superseded[kv] {
+				viol("notification-stale-value", fmt.Sprintf("reason=%d", n.R), fmt.Sprintf("(%d,%d) reported, but that value had been overwritten in place before the entry left (the entry's last value is %d)", n.K, n.V, r.pre[n.K].value))
+				continue
+			}
+			i := stored[kv]
+			if i == nil {
 				viol("notification-for-unwritten-value", fmt.Sprintf("reason=%d", n.R), fmt.Sprintf("(%d,%d) was never stored", n.K, n.V))
 				continue
 			}
-			if v, ok := r.final[n.K]; ok && v == n.V {
+			if i.resident {
 				viol("notified-but-resident", fmt.Sprintf("reason=%d", n.R), fmt.Sprintf("(%d,%d) reported but still resident", n.K, n.V))
 			}
 			switch n.R {
@@ -264,21 +312,21 @@ func c05IcbCheck(res *vh.Result, cfg *icCfg) func(r *icRun, x *vrt.Sched, cost i
 					viol("wrong-reason", "REMOVED-without-delete", fmt.Sprintf("(%d,%d) reported REMOVED, no Delete was issued", n.K, n.V))
 				}
 			case EXPIRED:
-				if c.Op.TTL == 0 {
+				if !i.ttl && !ttlOf[n.V] {
 					viol("wrong-reason", "EXPIRED-without-deadline", fmt.Sprintf("(%d,%d) reported EXPIRED but has no deadline", n.K, n.V))
 				}
 			}
 		}
-		for kv := range stored {
-			if v, ok := r.final[kv[0]]; ok && v == kv[1] {
+		for _, i := range incs {
+			if i.resident {
 				continue
 			}
-			if seen[kv] == 0 {
+			if seen[[2]int{i.k, i.v}] == 0 {
 				how := "policy"
-				if deleted[kv[0]] {
+				if deleted[i.k] {
 					how = "delete-or-policy"
 				}
-				viol("missing-notification", "departed-by-"+how, fmt.Sprintf("(%d,%d) is no longer resident and was never reported", kv[0], kv[1]))
+				viol("missing-notification", "departed-by-"+how, fmt.Sprintf("(%d,%d) is no longer resident and was never reported", i.k, i.v))
 			}
 		}
 		var rs []string
@@ -286,7 +334,7 @@ func c05IcbCheck(res *vh.Result, cfg *icCfg) func(r *icRun, x *vrt.Sched, cost i
 			rs = append(rs, fmt.Sprint(n.R))
 		}
 		sort.Strings(rs)
-		res.Outcome(fmt.Sprintf("%s|%d|%s|%s", cfg.Name, len(stored), fmtMap(r.final), strings.Join(rs, "")))
+		res.Outcome(fmt.Sprintf("%s|%d|%s|%s", cfg.Name, len(incs), fmtMap(r.final), strings.Join(rs, "")))
 		if res.NOutcomes() <= 2 {
 			res.Sample(map[string]any{"driver": cfg.Name, "history": r.history(), "listener": fmtNotes(r.h.notes)})
 		}
@@ -303,6 +351,8 @@ func c05IcbDrivers() []*icCfg {
 	return []*icCfg{
 		{Name: "del-vs-evict", O: m1, Scripts: [][]icOp{{S(1), D(1)}, {S(2)}, {S(4)}}},
 		{Name: "del-vs-expire", O: m1, Scripts: [][]icOp{{T(1, sec), D(1)}, {S(2)}, {tick}}},
+		{Name: "update-vs-evict", O: m1, Pre: []icOp{S(1)}, Scripts: [][]icOp{{S(1)}, {S(2)}, {S(4)}}},
+		{Name: "update-vs-expire", O: hOpts{MaxSize: 3, ChanSize: 2, BufSize: 2}, Pre: []icOp{T(1, sec)}, Scripts: [][]icOp{{S(1)}, {tick}, {S(2)}}},
 		{Name: "del-vs-evict-pool", O: m1p, Fresh: true, Scripts: [][]icOp{{S(1), D(1)}, {S(2)}, {S(4)}}},
 	}
 }
